@@ -122,7 +122,148 @@ Proof.
   destruct (GL_reachable c m be Hc ops init [] 0 0 (GL_init c Hb0) Hok ltac:(lia) ltac:(lia)) as (B' & Bb' & HG).
   destruct HG as (((Hn & Hti) & Hled) & Hd & Hb & Hl & Hp). intros t x.
   destruct (Hled t) as (Hdl & Hs & Hu & _).
-  destruct (reopen_unread_lag c _ t x _ Hc Hd Hb Hl (Hti t) (Hp t) Hk) as (Hst & (pre & Hpre) & (k & Hsk)).
+  apply orb_false_iff in Hk. destruct Hk as (Hdrift & Hstale).
+  assert (Hns : forall p, ts_index (get_ts (exec (env_of c m be) init ops) t) = Some p ->
+                          stale_p (memne (get_ts (exec (env_of c m be) init ops) t)) p = false).
+  { intros p Hpp. unfold get_ts in *.
+    destruct (find (fun q => fst q =? t) (s_topics (exec (env_of c m be) init ops))) as [[k0 old]|] eqn:Ef; [|discriminate].
+    pose proof (find_some _ _ Ef) as (Hin & Hk0). cbn in Hk0. assert (k0 = t) by lia. subst k0. cbn [snd] in *.
+    eapply nostale; eauto. }
+  destruct (reopen_unread_lag c _ t x _ Hc Hd Hb Hl (Hti t) (Hp t) Hdrift Hns) as (Hst & (pre & Hpre) & (k & Hsk)).
+  split; [now rewrite Hst|].
+  rewrite Hs in Hsk. rewrite Hu in Hpre.
+  destruct (skipn_back (l_app (lget _ t)) pre k (l_del (lget _ t)) Hdl ltac:(rewrite <- Hsk; exact Hpre)) as (k' & Hk' & Heq).
+  exists k'. split; [exact Hk'|]. now rewrite Hsk, Heq.
+Qed.
+
+(* ------------------------------------------------------------------ since the repair of the provisional persist: every
+   persisted position is a (possibly lagging) GOOD one, in any mode — block-id drift is the only known class *)
+Definition PL (c : Cfg) (s : st) : Prop := forall t p, ts_index (get_ts s t) = Some p -> PLag c (get_ts s t) p.
+
+Lemma PL_init c : PL c init.
+Proof. intros t p H. discriminate. Qed.
+
+Lemma PL_write c s s' g g' B Bb B' Bb' t :
+  cfg_ok c -> Rel c s g B Bb -> Rel c s' g' B' Bb' -> PL c s ->
+  Grow (get_ts s t) (get_ts s' t) -> ts_index (get_ts s' t) = ts_index (get_ts s t) ->
+  (forall t', t' <> t -> get_ts s' t' = get_ts s t') ->
+  l_del (lget g' t) = l_del (lget g t) ->
+  PL c s'.
+Proof.
+  intros Hc (_ & Hall) (_ & Hall') Hpl Hg Hi Hoth Hdel t0 p Hp. pose proof Hc as (Hh & _).
+  destruct (N.eq_dec t0 t) as [->|Hne]; [|rewrite (Hoth t0 Hne) in *; now apply Hpl].
+  rewrite Hi in Hp. specialize (Hpl t p Hp).
+  destruct (Hall t) as (Hdl & Hs & Hu & _). destruct (Hall' t) as (Hdl' & Hs' & Hu' & _).
+  pose proof Hg as (_ & (es & Hes & _)).
+  eapply PLag_grow; [exact Hh|exact Hg|exact Hes| |exact Hpl].
+  rewrite Hu', Hu, Hdel, <- Hs', Hes, Hs. now rewrite skipn_app_le by exact Hdl.
+Qed.
+
+Lemma CS_hydrated_world c nid ts bid : TInv c nid ts -> CS ts bid nid.
+Proof. intros Hti Hh p Hp. rewrite (ti_hyd _ _ _ Hti Hh) in Hp. discriminate. Qed.
+
+Lemma PL_set c s t ts' : PL c s -> (forall p, ts_index ts' = Some p -> PLag c ts' p) -> PL c (set_ts s t ts').
+Proof.
+  intros Hpl Ht t0 p Hp. destruct (N.eq_dec t0 t) as [->|Hne]; [rewrite get_set_same in *; now apply Ht|].
+  rewrite get_set_other in * by exact Hne. now apply Hpl.
+Qed.
+
+Lemma PL_step c m be s g B Bb o : cfg_ok c -> GL c s g B Bb -> PL c s -> op_ok c o ->
+  B + N.of_nat (length (offered o)) <= u64_max -> Bb + sum_len (offered o) <= u64_max ->
+  PL c (fst (step (env_of c m be) s o)).
+Proof.
+  intros Hc HGL Hpl Hok HB HBb. pose proof Hc as (Hh & Hb0 & _).
+  pose proof (GL_step c m be s g B Bb o Hc HGL Hok HB HBb) as (Hrel' & _).
+  destruct HGL as (Hrel & Hd & Hb & Hl & Hp). pose proof Hrel as ((Hn & Hti) & _).
+  destruct o as [t e | t es | t ck | t maxb ck start | t | ]; cbn [step env_of v_cfg v_mode v_backend] in *.
+  - assert (Hcs : forall bid, (forall w, ts_writer (get_ts s (t_id t)) = Some w -> bid = b_id w) ->
+                    (ts_writer (get_ts s (t_id t)) = None -> bid = a_next (s_alloc s)) -> CS (get_ts s (t_id t)) bid (a_next (s_alloc s))).
+    { intros bid _ _. apply (CS_hydrated_world c). apply Hti. }
+    destruct (proj2 (append_Nst false c s t e Hn Hcs)) as (_ & _ & K3).
+    eapply (PL_write c s _ g _ B Bb _ _ (t_id t) Hc Hrel Hrel' Hpl).
+    + apply append_grow_nc; [exact Hc|split; assumption].
+    + exact K3.
+    + intros t' Hne. now apply append_others.
+    + now apply ledger_step_write_del.
+  - assert (Hcs : forall bid, (forall w, ts_writer (get_ts s (t_id t)) = Some w -> bid = b_id w) ->
+                    (ts_writer (get_ts s (t_id t)) = None -> bid = a_next (s_alloc s)) -> CS (get_ts s (t_id t)) bid (a_next (s_alloc s))).
+    { intros bid _ _. apply (CS_hydrated_world c). apply Hti. }
+    destruct (proj2 (batch_Nst false c be s t es Hn Hcs)) as (_ & _ & K3).
+    eapply (PL_write c s _ g _ B Bb _ _ (t_id t) Hc Hrel Hrel' Hpl).
+    + apply batch_grow_nc; [exact Hc|split; assumption].
+    + exact K3.
+    + intros t' Hne. now apply batch_others.
+    + now apply ledger_step_write_del.
+  - destruct (read_next_spec_idxL c m s t ck (a_next (s_alloc s)) Hc (Hti (t_id t))) as (ts' & res & Hr & Hinv' & Hst' & Hw' & Hch' & Hhy' & Hcase & Hidx).
+    rewrite Hr. cbn [fst]. apply PL_set; [exact Hpl|]. intros p Hpp.
+    assert (Hcne : CNE ts') by (unfold CNE; rewrite Hch'; exact (proj1 (Hp (t_id t)))).
+    destruct Hidx as [Hi|[(p' & Hi & Hpos)|(w & Hck & Hw0 & Hi & Hri & Hun0 & Hne)]].
+    + rewrite Hi in Hpp. pose proof (Hpl (t_id t) p Hpp) as Hlag.
+      destruct (unread c (get_ts s (t_id t))) as [|e0 rest] eqn:Eu.
+      * destruct Hcase as (_ & Hun'). apply (PLag_suffix c (get_ts s (t_id t)) ts' p [] Hch' Hw'); [now rewrite Eu, Hun'|exact Hlag].
+      * destruct Hcase as (_ & Hun'). destruct ck.
+        -- apply (PLag_suffix c (get_ts s (t_id t)) ts' p [e0] Hch' Hw'); [now rewrite Eu, Hun'|exact Hlag].
+        -- apply (PLag_suffix c (get_ts s (t_id t)) ts' p [] Hch' Hw'); [now rewrite Eu, Hun'|exact Hlag].
+    + rewrite Hi in Hpp. inversion Hpp; subst p'. apply PGood_PLag. eapply posis_PGood; eauto.
+    + rewrite Hi in Hpp. inversion Hpp; subst p.
+      assert (Hm : memne ts' = chain_of ts' ++ [w]).
+      { rewrite (memne_cne ts' Hcne). unfold w_list. rewrite Hw', Hw0. cbn [filter].
+        apply nonempty_b_true in Hne. now rewrite Hne. }
+      destruct (unread c (get_ts s (t_id t))) as [|e0 rest] eqn:Eu; [congruence|].
+      destruct Hcase as (_ & Hun'). rewrite Hck in Hun'.
+      exists (length (chain_of ts')), w, [e0]. rewrite Hm. cbn [p_tail p_a p_off].
+      split; [rewrite nth_error_app2 by lia; now rewrite Nat.sub_diag|]. split; [reflexivity|]. split; [apply okoff_0|].
+      unfold from. rewrite skipn_app, skipn_all, Nat.sub_diag. cbn [app skipn chain_ents flat_map].
+      rewrite app_nil_r, ents_from_0, <- Hun0, Hun'. reflexivity.
+  - destruct start as [st0|].
+    + destruct (batch_read_stateless c m s t maxb ck st0) as (os & Hr). rewrite Hr. cbn [fst].
+      apply PL_set; [exact Hpl|]. intros p Hpp. now apply Hpl.
+    + destruct (batch_read_spec_idxL c m s t maxb ck (a_next (s_alloc s)) Hc (Hti (t_id t))) as (ts' & k & Hr & Hinv' & Hst' & Hw' & Hch' & Hhy' & Hk & Hk1 & Hun' & Hidx).
+      rewrite Hr. cbn [fst]. apply PL_set; [exact Hpl|]. intros p Hpp.
+      assert (Hcne : CNE ts') by (unfold CNE; rewrite Hch'; exact (proj1 (Hp (t_id t)))).
+      destruct Hidx as [Hi|(p' & Hi & Hpos)].
+      * rewrite Hi in Hpp. pose proof (Hpl (t_id t) p Hpp) as Hlag. destruct ck.
+        -- apply (PLag_suffix c (get_ts s (t_id t)) ts' p (firstn k (unread c (get_ts s (t_id t)))) Hch' Hw'); [rewrite Hun'; symmetry; apply firstn_skipn|exact Hlag].
+        -- apply (PLag_suffix c (get_ts s (t_id t)) ts' p [] Hch' Hw'); [now rewrite Hun'|exact Hlag].
+      * rewrite Hi in Hpp. inversion Hpp; subst p'. apply PGood_PLag. eapply posis_PGood; eauto.
+  - exact Hpl.
+  - contradiction.
+Qed.
+
+Theorem PL_reachable c m be : cfg_ok c -> forall ops s g B Bb,
+  GL c s g B Bb -> PL c s -> Forall (op_ok c) ops ->
+  B + N.of_nat (length (offered_all ops)) <= u64_max -> Bb + sum_len (offered_all ops) <= u64_max ->
+  PL c (exec (env_of c m be) s ops).
+Proof.
+  intros Hc. induction ops as [|o r IH]; intros s g B Bb HG Hpl Hok HB HBb; [exact Hpl|].
+  inversion Hok as [|x l Ho Hr]; subst.
+  cbn [offered_all] in HB, HBb. rewrite app_length, Nat2N.inj_add in HB. rewrite sum_len_app in HBb.
+  pose proof (GL_step c m be s g B Bb o Hc HG Ho ltac:(lia) ltac:(lia)) as Hstep.
+  pose proof (PL_step c m be s g B Bb o Hc HG Hpl Ho ltac:(lia) ltac:(lia)) as Hpl'.
+  cbn [exec]. destruct (step (env_of c m be) s o) as [s' res]. cbn [fst snd] in *.
+  apply (IH s' _ _ _ Hstep Hpl' Hr); lia.
+Qed.
+
+(* the crash-between-operations theorem with block-id drift as the only hypothesis *)
+Theorem crash_between_operations_never_skips_nd c m be ops : cfg_ok c -> Forall (op_ok c) ops ->
+  N.of_nat (length (offered_all ops)) <= u64_max -> sum_len (offered_all ops) <= u64_max ->
+  id_drift c (exec (env_of c m be) init ops) = false ->
+  let s := exec (env_of c m be) init ops in
+  let g := ledger_run [] (trace (env_of c m be) init ops) in
+  forall t x,
+    stream (get_ts (reopen c s) t) = l_app (lget g t) /\
+    exists k, (k <= l_del (lget g t))%nat /\
+              unread c (nrm x (get_ts (reopen c s) t)) = skipn k (l_app (lget g t)).
+Proof.
+  intros Hc Hok HB HBb Hdrift. cbn zeta. pose proof Hc as (_ & Hb0 & _).
+  destruct (GL_reachable c m be Hc ops init [] 0 0 (GL_init c Hb0) Hok ltac:(lia) ltac:(lia)) as (B' & Bb' & HG).
+  pose proof (PL_reachable c m be Hc ops init [] 0 0 (GL_init c Hb0) (PL_init c) Hok ltac:(lia) ltac:(lia)) as Hpl.
+  destruct HG as (((Hn & Hti) & Hled) & Hd & Hb & Hl & Hp). intros t x.
+  destruct (Hled t) as (Hdl & Hs & Hu & _).
+  assert (Hns : forall p, ts_index (get_ts (exec (env_of c m be) init ops) t) = Some p ->
+                          stale_p (memne (get_ts (exec (env_of c m be) init ops) t)) p = false).
+  { intros p Hpp. eapply PLag_nonstale. now apply Hpl. }
+  destruct (reopen_unread_lag c _ t x _ Hc Hd Hb Hl (Hti t) (Hp t) Hdrift Hns) as (Hst & (pre & Hpre) & (k & Hsk)).
   split; [now rewrite Hst|].
   rewrite Hs in Hsk. rewrite Hu in Hpre.
   destruct (skipn_back (l_app (lget _ t)) pre k (l_del (lget _ t)) Hdl ltac:(rewrite <- Hsk; exact Hpre)) as (k' & Hk' & Heq).
